@@ -210,11 +210,19 @@ Fixpoint put (j : id) (e : entry) (l : list (id * entry)) : list (id * entry) :=
 
 (* structural equality on the unnamed details the fragment produces
    (TypeEntryDetails: PartialEq/Ord as the key of type_to_id) *)
+Fixpoint ids_eqb (a b : list id) : bool :=
+  match a, b with
+  | [], [] => true
+  | x :: a', y :: b' => (x =? y) && ids_eqb a' b'
+  | _, _ => false
+  end.
+
 Definition udet_eqb (a b : details) : bool :=
   match a, b with
   | DOption x, DOption y => x =? y
   | DVec x, DVec y => x =? y
   | DSet x, DSet y => x =? y
+  | DTuple x, DTuple y => ids_eqb x y
   | DArray x n, DArray y m => (x =? y) && (n =? m)
   | DMap k v, DMap k' v' => (k =? k') && (v =? v')
   | DUnit, DUnit | DBoolean, DBoolean | DString, DString | DJsonValue, DJsonValue => true
@@ -290,6 +298,7 @@ Inductive kind :=
 | KEnum (raws : list ustring)
 | KStruct (deny : bool)
 | KMap
+| KTuple                                   (* items: [..] with minItems = maxItems = their number *)
 | KVec (c : seqc) | KVecAny (c : seqc)     (* Vec / Set / fixed-length array, with / without item schema *)
 | KRef (r : ustring)
 | KAny.
@@ -382,6 +391,13 @@ Section Classify.
     | _, _ => Some (if uq then CSet else CVec)
     end.
 
+  (* convert.rs:1796-1807: a tuple with exactly as many item schemas as required items *)
+  Definition tuple_len_ok : bool :=
+    match mni, mxi with
+    | Some a, Some b => (a =? N.of_nat (length items)) && (b =? a) && negb uq && (0 <? a) && (a <? 4294967296)
+    | _, _ => false
+    end.
+
   Definition kind_of_type (t : itype) : option kind :=
     match t with
     | TBoolean => if is_none fmt && is_none enum && no_array && no_object && no_num && no_str && no_len then Some KBool else None
@@ -409,10 +425,14 @@ Section Classify.
         else None
     | TArray =>
         if is_none fmt && is_none enum && no_object && no_num && no_str then
-          match seq_kind, ik, items with
-          | Some c, ItemsAbsent, [] => Some (KVecAny c)
-          | Some c, ItemsSingle, [_] => Some (KVec c)
-          | _, _, _ => None
+          match ik with
+          | ItemsTuple => if tuple_len_ok then Some KTuple else None
+          | _ =>
+              match seq_kind, ik, items with
+              | Some c, ItemsAbsent, [] => Some (KVecAny c)
+              | Some c, ItemsSingle, [_] => Some (KVec c)
+              | _, _, _ => None
+              end
           end
         else None
     | TObject =>
@@ -487,6 +507,12 @@ Section Convert.
     | NRequired p | NSuggested p => NSuggested (p ++ [c_uscore] ++ s_item)
     | NUnknown => NUnknown
     end.
+  (* convert.rs:1802 type_name.append(&format!("item{}", ii)) *)
+  Definition idx_name (nm : name) (i : nat) : name :=
+    match nm with
+    | NRequired p | NSuggested p => NSuggested (p ++ [c_uscore] ++ s_item ++ ulit (show_N (N.of_nat i)))
+    | NUnknown => NUnknown
+    end.
   Definition seq_item_name (c : seqc) (nm : name) : name :=
     match c with CArr _ => append_item nm | _ => item_name nm end.
 
@@ -543,6 +569,23 @@ Section Convert.
             end
         end.
 
+    (* convert.rs:1797-1805: the item schemas in order *)
+    Definition conv_items (nm : name) : nat -> list schema -> st -> option (list id * st) :=
+      fix go (i : nat) (l : list schema) (s : st) {struct l} : option (list id * st) :=
+        match l with
+        | [] => Some ([], s)
+        | it :: r =>
+            match cv it (idx_name nm i) s with
+            | None => None
+            | Some (te, s1) =>
+                let '(t, s2) := assign te s1 in
+                match go (S i) r s2 with
+                | None => None
+                | Some (ts, s3) => Some (t :: ts, s3)
+                end
+            end
+        end.
+
     Definition conv_kind (k : kind) (nm : name) (items : list schema)
                (props : list (ustring * schema)) (req : list ustring) (ap : option schema) (s : st)
       : option (details * st) :=
@@ -587,6 +630,11 @@ Section Convert.
               end
           | None =>
               let '(vid, s2) := assign DJsonValue (set_json s1) in Some (DMap kid vid, s2)
+          end
+      | KTuple =>
+          match conv_items nm 0%nat items s with
+          | Some (ts, s1) => Some (DTuple ts, s1)
+          | None => None
           end
       | KVec c =>
           match items with
@@ -739,6 +787,12 @@ Section Frag.
                 end
             | KMap => match ap with Some vs => names_of vs (value_name nm') | None => [] end
             | KVec c => flat_map (fun it => names_of it (seq_item_name cls c nm')) items
+            | KTuple =>
+                (fix go (l : list schema) (i : nat) {struct l} : list ustring :=
+                   match l with
+                   | [] => []
+                   | it :: r => names_of it (idx_name nm' i) ++ go r (S i)
+                   end) items 0%nat
             | _ => []
             end
         end
@@ -777,7 +831,7 @@ Section Frag.
                 | Some (SBool true) | None => true
                 | Some vs => frag vs
                 end
-            | KVec _ => forallb frag items
+            | KVec _ | KTuple => forallb frag items
             | KRef r => mem_ustr r keys
             | _ => true
             end
@@ -794,7 +848,7 @@ Fixpoint byval_refs (s : schema) {struct s} : list ustring :=
       match classify ty fmt enum cst nv sv ik items ai mni mxi uq props req ap mnp mxp allo anyo oneo no ref dflt title with
       | Some (_, KRef r) => [r]
       | Some (_, KStruct _) => flat_map (fun kv => byval_refs (snd kv)) props
-      | Some (_, KVec (CArr _)) => flat_map byval_refs items      (* [T; n] contains T by value (cycles.rs:169) *)
+      | Some (_, KVec (CArr _)) | Some (_, KTuple) => flat_map byval_refs items      (* [T; n] contains T by value (cycles.rs:169) *)
       | _ => []
       end
   end.
@@ -855,7 +909,7 @@ Fixpoint no_nullable_enum (s : schema) {struct s} : bool :=
       | Some (true, KEnum _) => false
       | Some (_, KStruct _) => forallb (fun kv => no_nullable_enum (snd kv)) props
       | Some (_, KMap) => match ap with Some vs => no_nullable_enum vs | None => true end
-      | Some (_, KVec _) => forallb no_nullable_enum items
+      | Some (_, KVec _) | Some (_, KTuple) => forallb no_nullable_enum items
       | _ => true
       end
   end.
